@@ -325,7 +325,7 @@ fn check(args: &[String]) -> i32 {
     ev.level = "exploration".into();
     ev.evaluations = evaluations;
     ev.distinct_nontrivial = nontrivial.len() as u64;
-    ev.rule = "a run = seeded plan: 1-60 formatting operations (fixture keys through td_string!/td!/td_display! with FixedDecimal, f64, f32 and every integer type, td_format_string! call sites, t_format!/tu_format! families and t_plural!/tu_plural! on a context whose locale changes, plural keys, td_plural!) over 9 locales (incl. pt / pt-PT, RTL ar, th with its Buddhist calendar) x 92 formatter texts (the complete documented option matrix incl. omitted/unknown/whitespace variants), split over 1-4 caller threads, a scheduler policy (random / PCT / round-robin / lowest) deciding which parked thread proceeds at every hook point around the cache lock, and (fault batch) 1-3 provider failures placed at the n-th construction. Every operation's output is compared with a stateless ICU4X formatter built from the documented options. A run is non-trivial when operations compete for cache slots (same slot twice), several threads are live, or a fault fired; distinct = distinct plan.".into();
+    ev.rule = "a run = seeded plan: 1-60 formatting operations (fixture keys through td_string!/td!/td_display! with FixedDecimal, f64, f32 and every integer type, td_format_string! call sites, t_format!/tu_format! families and t_plural!/tu_plural! on a context whose locale changes, plural keys, td_plural!) over 12 locales (incl. pt / pt-PT, RTL ar, th with its Buddhist calendar, the es / es-419 / es-MX inherits chain) x 114 formatter texts (the complete documented option matrix incl. omitted/unknown/duplicated/colon-less/whitespace variants; texts that repeat an argument with two recognised values are judged for agreement between a translation file and td_format_string!, route dup_pair), split over 1-4 caller threads, a scheduler policy (random / PCT / round-robin / lowest) deciding which parked thread proceeds at every hook point around the cache lock, and (fault batch) 1-3 provider failures placed at the n-th construction. Every operation's output is compared with a stateless ICU4X formatter built from the documented options. A run is non-trivial when operations compete for cache slots (same slot twice), several threads are live, or a fault fired; distinct = distinct plan.".into();
     ev.samples = samples;
     ev.faults_fired = faults_fired;
     ev.probes = probes;
